@@ -178,19 +178,23 @@ def operations(ref, L, S):
     reg("get_as-fields-mutate", lambda c: mutate_dict(c["T"]["plain"].get_as(keys[2]).fields), True)
     reg("get_with-fields-mutate", lambda c: mutate_dict(c["T"]["plain"].get_with(**{keys[-1]: "*"}).fields), True)
 
-    def ctor_then_mutate(c):
-        d = dict(c["T"]["plain"].fields)
+    # the caller keeps (and goes on using) the dictionary a Sid was built from: the Sid is a derived Sid that must not follow
+    def ctor_then_mutate(c, how, n):
+        items = list(c["T"]["plain"].fields.items())[:n]
+        d = dict(reversed(items)) if how == "reversed" else dict(items)
         x = Sid(fields=d)
-        d[keys[-1]] = "zz"
-        d.clear()
-        c["last"].append(x)
-    reg("Sid(fields=d)-then-mutate-d", ctor_then_mutate, True)
-
-    def ctor_reversed(c):
-        d = dict(reversed(list(c["T"]["plain"].fields.items())))
-        x = Sid(fields=d)
-        d.clear()
-    reg("Sid(fields=reversed)-then-clear", ctor_reversed, True)
+        want = snap({"x": x})["x"]
+        if how == "grow" and n < len(keys):
+            d[keys[n]] = "*"                  # the same dictionary reused to build the next, deeper Sid
+            Sid(fields=d)
+        elif how == "set":
+            d[keys[n - 1]] = "zz"
+        else:
+            d.clear()
+        c.setdefault("derived", []).append((f"Sid(fields=d)-then-{how}", x, want))
+    for how in ("set", "clear", "grow", "reversed"):
+        for n in (1, len(keys)):
+            reg(f"Sid(fields=d[:{n}])-then-{how}-d", lambda c, how=how, n=n: ctor_then_mutate(c, how, n), True)
 
     def lists(c):
         x = c["T"]["short"]
